@@ -5,6 +5,7 @@ import (
 	"fmt"
 	"strings"
 	"sync"
+	"sync/atomic"
 	"time"
 
 	"verif/harness/check"
@@ -159,6 +160,7 @@ func init() {
 			shared := map[core.Opts]any{}
 			var wg sync.WaitGroup
 			results := make([]*core.Result, len(jobs))
+			var panicked atomic.Bool
 			for i := range jobs {
 				j := &jobs[i]
 				key := j.cs.O
@@ -179,6 +181,14 @@ func init() {
 				go func(i int) {
 					defer wg.Done()
 					j := &jobs[i]
+					// a panic out of query creation or Exec on the caller's goroutine: the
+					// embedding process would die of it
+					defer func() {
+						if r := recover(); r != nil {
+							results[i] = &core.Result{Type: "none", Err: fmt.Sprintf("PANIC on the caller's goroutine: %v", r)}
+							panicked.Store(true)
+						}
+					}()
 					key := j.cs.O
 					key.Procs = 0
 					if j.cs.NDist > 0 {
@@ -203,6 +213,15 @@ func init() {
 				}(i)
 			}
 			wg.Wait()
+			if panicked.Load() {
+				for i := range jobs {
+					if results[i] != nil && strings.HasPrefix(results[i].Err, "PANIC on the caller's goroutine") {
+						cp := jobs[i].cs
+						c.Fail(check.Failure{Prop: "C12", Kind: "enum", Sub: "C12/race", Symptom: "isolation:panic", Detail: fmt.Sprintf("run concurrently with %d other queries: %s", len(jobs)-1, results[i].Err), Case: &cp})
+					}
+				}
+				panicked.Store(false)
+			}
 			c.Rep.States++
 			c.Rep.Transitions += int64(len(jobs))
 			c.Rep.Evaluations += int64(len(jobs))
